@@ -634,6 +634,48 @@ fn stdout_shows_results(stdout: &[u8]) -> bool {
     [Prayer::Fajr, Prayer::Dhuhr, Prayer::Asr, Prayer::Maghrib, Prayer::Isha].iter().any(|p| t.lines().any(|l| l.contains(&p.to_string()) && shows_a_time(l)))
 }
 
+/// clock times a line shows, as (hour 0..23, minute, optional second); understands `5:26 AM`,
+/// `05:26 am`, `17:35`, `17:35:20`
+fn times_shown(l: &str) -> Vec<(u32, u32, Option<u32>)> {
+    let b = l.as_bytes();
+    let mut out = Vec::new();
+    let mut i = 0;
+    while i < b.len() {
+        if b[i].is_ascii_digit() && (i == 0 || !b[i - 1].is_ascii_digit()) {
+            let hs = i;
+            while i < b.len() && b[i].is_ascii_digit() {
+                i += 1;
+            }
+            let hdigits = i - hs;
+            if hdigits <= 2 && i + 2 < b.len() && b[i] == b':' && b[i + 1].is_ascii_digit() && b[i + 2].is_ascii_digit() && (i + 3 >= b.len() || !b[i + 3].is_ascii_digit()) {
+                let h: u32 = l[hs..i].parse().unwrap_or(99);
+                let m: u32 = l[i + 1..i + 3].parse().unwrap_or(99);
+                i += 3;
+                let mut sec = None;
+                if i + 2 < b.len() && b[i] == b':' && b[i + 1].is_ascii_digit() && b[i + 2].is_ascii_digit() {
+                    sec = l[i + 1..i + 3].parse().ok();
+                    i += 3;
+                }
+                let rest = l[i..].trim_start().to_ascii_lowercase();
+                let h24 = if rest.starts_with("am") || rest.starts_with("a.m") {
+                    if h == 12 { 0 } else { h }
+                } else if rest.starts_with("pm") || rest.starts_with("p.m") {
+                    if h == 12 { 12 } else { h + 12 }
+                } else {
+                    h
+                };
+                if h24 < 24 && m < 60 {
+                    out.push((h24, m, sec));
+                }
+                continue;
+            }
+            continue;
+        }
+        i += 1;
+    }
+    out
+}
+
 fn shows_a_time(l: &str) -> bool {
     let b = l.as_bytes();
     (0..b.len().saturating_sub(3)).any(|i| b[i].is_ascii_digit() && b[i + 1] == b':' && b[i + 2].is_ascii_digit() && b[i + 3].is_ascii_digit())
@@ -648,10 +690,54 @@ fn check_listing(stdout: &[u8], exp: &Times) -> Result<(), String> {
     let text = String::from_utf8_lossy(stdout);
     let lines: Vec<&str> = text.lines().map(|l| l.trim()).filter(|l| !l.is_empty()).collect();
     let hijri: Vec<(NaiveDate, String)> = exp.keys().map(|d| (*d, HijriDate::from(*d).to_string())).collect();
+    // a header line names a Hijri date: the month's name (the library's rendering) together with the
+    // day and the year as whole numbers - in whatever arrangement
+    let names = |l: &str, d: &NaiveDate| -> bool {
+        let h = HijriDate::from(*d);
+        let nums: Vec<u64> = l.split(|c: char| !c.is_ascii_digit()).filter(|t| !t.is_empty()).filter_map(|t| t.parse().ok()).collect();
+        l.contains(&h.month().to_string()) && nums.contains(&(h.day() as u64)) && nums.contains(&(h.year() as u64))
+    };
     // header lines: (line index, date)
     let mut headers: Vec<(usize, NaiveDate)> = Vec::new();
     for (i, l) in lines.iter().enumerate() {
-        if let Some((d, _)) = hijri.iter().find(|(_, h)| l.contains(h.as_str())) {
+        let cands: Vec<&NaiveDate> = exp.keys().filter(|d| names(l, d)).collect();
+        // a line such as "Rajab 12, 1445 ... (January 24, 2024)" could name two dates of a long range by
+        // coincidence of numbers; prefer the library's full rendering to break the tie
+        let pick = if cands.len() > 1 {
+            cands
+                .iter()
+                .find(|d| l.contains(&HijriDate::from(***d).to_string()))
+                .copied()
+                .or_else(|| {
+                    // otherwise: the candidate whose day number stands nearest to the month's name
+                    let month = HijriDate::from(*cands[0]).month().to_string();
+                    let mpos = l.find(&month).unwrap_or(0) as i64;
+                    let mut best: Option<(i64, u64)> = None;
+                    let b = l.as_bytes();
+                    let mut i = 0;
+                    while i < b.len() {
+                        if b[i].is_ascii_digit() {
+                            let st = i;
+                            while i < b.len() && b[i].is_ascii_digit() {
+                                i += 1;
+                            }
+                            if let Ok(v) = l[st..i].parse::<u64>() {
+                                let dist = (st as i64 - mpos).abs().min((i as i64 - mpos).abs());
+                                if v <= 30 && best.map(|(bd, _)| dist < bd).unwrap_or(true) {
+                                    best = Some((dist, v));
+                                }
+                            }
+                        } else {
+                            i += 1;
+                        }
+                    }
+                    best.and_then(|(_, v)| cands.iter().find(|d| HijriDate::from(***d).day() as u64 == v).copied())
+                })
+                .or(cands.first().copied())
+        } else {
+            cands.first().copied()
+        };
+        if let Some(d) = pick {
             headers.push((i, *d));
         }
     }
@@ -665,9 +751,10 @@ fn check_listing(stdout: &[u8], exp: &Times) -> Result<(), String> {
         }
     }
     // dates beyond the range: lines that end like a Hijri date of the library but match no expected date
-    if let Some((_, any)) = hijri.first() {
-        let suffix: String = any.chars().rev().take(5).collect::<String>().chars().rev().collect();
-        let stray = lines.iter().enumerate().filter(|(i, l)| l.contains(suffix.as_str()) && !headers.iter().any(|(hi, _)| hi == i)).count();
+    if let (Some(first), Some(last)) = (exp.keys().next(), exp.keys().next_back()) {
+        // the days just outside the range, named the same way
+        let outside: Vec<NaiveDate> = [first.pred_opt(), last.succ_opt()].into_iter().flatten().collect();
+        let stray = lines.iter().enumerate().filter(|(i, l)| !headers.iter().any(|(hi, _)| hi == i) && outside.iter().any(|d| names(l, d))).count();
         if stray > 0 {
             return Err(format!("{stray} line(s) look like the Hijri date of a day outside the range ({} dates expected)", exp.len()));
         }
@@ -684,13 +771,15 @@ fn check_listing(stdout: &[u8], exp: &Times) -> Result<(), String> {
             }
             let ok = match t {
                 Ok(pt) => {
-                    let want = pt.to_string().trim().to_string();
+                    // the same time of day in whatever notation (12 h with AM/PM, 24 h, with or without
+                    // seconds, zero-padded or not); the "extreme" marker present exactly when the flag is set
+                    use chrono::Timelike;
+                    let (h, m, sec) = (pt.time.hour(), pt.time.minute(), pt.time.second());
                     cands.iter().any(|line| {
-                        line.match_indices(&want).any(|(pos, _)| {
-                            let before = line[..pos].chars().last();
-                            let after = line[pos + want.len()..].chars().next();
-                            !before.map(|c| c.is_ascii_digit()).unwrap_or(false) && !after.map(|c| c.is_ascii_alphanumeric()).unwrap_or(false)
-                        }) && (pt.extreme || !line.contains("extreme"))
+                        let shown = times_shown(line);
+                        let time_ok = shown.iter().any(|(hh, mm, ss)| *hh == h && *mm == m && ss.map(|x| x == sec).unwrap_or(true));
+                        let lower = line.to_ascii_lowercase();
+                        time_ok && (pt.extreme == lower.contains("extreme"))
                     })
                 }
                 Err(()) => cands.iter().any(|line| !shows_a_time(line)),
